@@ -71,6 +71,14 @@ FLAVOURS = {
     # libstdc++ precondition checks (e.g. back() on an empty string aborts): turns
     # some undefined behaviour into a deterministic abort of the real tool
     "assert": ["-DCMAKE_BUILD_TYPE=Release", "-DCMAKE_CXX_FLAGS=-g1 -D_GLIBCXX_ASSERTIONS"],
+
+
+    # asan + libstdc++ container assertions (back() on an empty string, operator[] out of range ...): C20
+    # (the bounds/overflow subset of UBSan only: alignment and shift reports would stop a run before it gets anywhere)
+    "hard": ["-DCMAKE_BUILD_TYPE=RelWithDebInfo",
+             "-DCMAKE_CXX_FLAGS=-O1 -g -fsanitize=address,bounds,signed-integer-overflow,integer-divide-by-zero,null,pointer-overflow,vla-bound,return,unreachable -fno-sanitize-recover=all -fno-omit-frame-pointer -D_GLIBCXX_ASSERTIONS",
+             "-DCMAKE_C_FLAGS=-O1 -g -fsanitize=address",
+             "-DCMAKE_EXE_LINKER_FLAGS=-fsanitize=address,undefined"],
     "tsan": ["-DCMAKE_BUILD_TYPE=RelWithDebInfo",
              "-DCMAKE_CXX_FLAGS=-O1 -g -fsanitize=thread",
              "-DCMAKE_EXE_LINKER_FLAGS=-fsanitize=thread"],
